@@ -3,6 +3,10 @@ Driver for Model/Registry.lean:   lake env lean --run PgVerif/Drv/Registry.lean
   find <hex of the UTF-8 bytes of the query string>      -> ok <hex of the adsorbate name> | none
   selfcheck                                               -> ok <n aliases>  (the generated keys are `encode` of the generated alias strings) | mismatch …
   prop <T|F> <backend n/d | ~> <user n/d | ~>             -> ok n/d | err calc
+ string level (Model/Registry `ctorAlias`, `findS`, `designated` at `String.toLower`); a string travels as `x` + hex of its UTF-8 bytes:
+  ctor <name> <n | s | l> <alias>*                        -> ok <stored alias>*      (n = no alias argument, s = one string, l = a list)
+  bfind <query> (<name> <n | s | l> <count> <alias>*count)*  -> ok <name of the entry found> <how many entries the query designates> | none 0
+                                                             (registry = one constructed adsorbate per entry, in order)
 -/
 import PgVerif.Model.Registry
 import PgVerif.Drv.Proto
@@ -27,8 +31,48 @@ def hexOf (s : String) : String :=
   let d := "0123456789abcdef".toList
   String.ofList (s.toUTF8.toList.flatMap fun b => [d.getD (b.toNat / 16) '0', d.getD (b.toNat % 16) '0'])
 
+def unx (t : String) : Option String :=
+  if t.startsWith "x" then unhex (t.drop 1).toString else none
+
+def xOf (s : String) : String := "x" ++ hexOf s
+
+/-- the `alias` argument of the constructor: `n` = absent, `s a` = a string (a one-element list for the model), `l a*` = a list -/
+def aliasArg (kind : String) (as : List String) : Option (Option (List String)) :=
+  match kind, as with
+  | "n", [] => some none
+  | "s", [a] => (unx a).map fun a => some [a]
+  | "l", as => (as.mapM unx).map some
+  | _, _ => none
+
+/-- entries `<name> <kind> <count> <alias>*count` … -/
+partial def parseEntries (ts : List String) (acc : List (String × Option (List String))) :
+    Option (List (String × Option (List String))) :=
+  match ts with
+  | [] => some acc.reverse
+  | n :: k :: c :: rest =>
+    match unx n, c.toNat? with
+    | some n, some c =>
+      if rest.length < c then none else
+      match aliasArg k (rest.take c) with
+      | some al => parseEntries (rest.drop c) ((n, al) :: acc)
+      | none => none
+    | _, _ => none
+  | _ => none
+
 def step (ts : List String) : String :=
   match ts with
+  | "ctor" :: n :: k :: as =>
+    match unx n, aliasArg k as with
+    | some n, some al => " ".intercalate ("ok" :: (ctorAlias String.toLower n al).map xOf)
+    | _, _ => "bad-op"
+  | "bfind" :: q :: es =>
+    match unx q, parseEntries es [] with
+    | some q, some entries =>
+      let reg := build String.toLower entries
+      match findS String.toLower reg q with
+      | some n => s!"ok {xOf n} {(designated String.toLower reg q).length}"
+      | none => s!"none {(designated String.toLower reg q).length}"
+    | _, _ => "bad-op"
   | ["find", h] =>
     match unhex h with
     | some s =>
